@@ -296,6 +296,66 @@ class Objective(object):
         return t[0]
 
 
+def _snapshot(a):
+    """content + form of an argument (to see whether a call changed it)"""
+    if isinstance(a, np.ndarray):
+        return ('nd', str(a.dtype), a.shape, a.tobytes())
+    return (type(a).__name__, repr([list(v) if isinstance(v, (list, tuple, np.ndarray)) else v for v in a]))
+
+
+def arg_forms(case, init, bounds):
+    """the initials / bounds of a direct implementation call in the argument form of the case:
+    forms['init'] in f64 | list | tuple | int | f32 | strided, forms['bounds'] in f64 | list | tuples | forder | strided
+    (int / f32 are only generated with values that are exact in that type)"""
+    fm = case.get('forms') or {}
+    fi, fb = fm.get('init', 'f64'), fm.get('bounds', 'f64')
+    a = np.array(init, dtype=np.float64)
+    if fi == 'list':
+        i2 = [float(v) for v in a]
+    elif fi == 'tuple':
+        i2 = tuple(float(v) for v in a)
+    elif fi == 'int':
+        i2 = a.astype(np.int64)
+    elif fi == 'f32':
+        i2 = a.astype(np.float32)
+    elif fi == 'strided':
+        i2 = np.repeat(a, 2)[::2]
+    else:
+        i2 = a
+    b = np.array(bounds, dtype=np.float64)
+    if fb == 'list':
+        b2 = [[float(u), float(v)] for (u, v) in b]
+    elif fb == 'tuples':
+        b2 = [(float(u), float(v)) for (u, v) in b]
+    elif fb == 'forder':
+        b2 = np.asfortranarray(b)
+    elif fb == 'strided':
+        b2 = np.repeat(b, 2, axis=1)[:, ::2]
+    else:
+        b2 = b
+    return i2, b2
+
+
+def gen_forms(rng, cs):
+    """choose an argument form for a direct NR / scan call; makes the initial values exact for int / f32"""
+    fi = rng.choice(['f64', 'f64', 'list', 'tuple', 'int', 'f32', 'strided'])
+    if fi in ('int', 'f32'):
+        def snap(v, lo, hi):
+            w = float(np.float32(v)) if fi == 'f32' else float(round(v))
+            return w if lo <= w <= hi else None
+        ns0 = snap(cs['ns0'], cs['lo'], cs['hi'])
+        p20 = snap(cs['p20'], cs['p2lo'], cs['p2hi']) if 'p20' in cs else 0.0
+        if ns0 is None or p20 is None or 'd' in (cs.get('order') or []):
+            fi = 'list'
+        else:
+            cs['ns0'] = ns0
+            if 'p20' in cs:
+                cs['p20'] = p20
+    cs['forms'] = {'init': fi, 'bounds': rng.choice(['f64', 'f64', 'list', 'tuples', 'forder', 'strided']),
+                   'args': rng.choice(['none', 'tuple', 'list'])}
+    return cs
+
+
 def nr_impl(case, scan=False):
     from skyllh.core.minimizer import NR1dNsMinimizerImpl, NRNsScan2dMinimizerImpl
     if scan:
@@ -310,18 +370,26 @@ def run_nr_direct(case):
     llh = build_llh(case, impl) if case['obj']['shape'] == 'llh' else None
     obj = Objective(case, llh)
     (init, bounds) = init_bounds(case)
-    (init, bounds) = (np.array(init, dtype=np.float64), np.array(bounds, dtype=np.float64))
+    (init, bounds) = arg_forms(case, init, bounds)
+    snap = (_snapshot(init), _snapshot(bounds))
     idx = layout(case)[1]
     kw = {'ns_pidx': idx} if idx != 0 else {}
+    fa = {'none': None, 'tuple': (), 'list': []}[(case.get('forms') or {}).get('args', 'none')]
     with warnings.catch_warnings():
         warnings.simplefilter('ignore')
         try:
-            (x, f, st) = impl.minimize(init, bounds, obj, **kw)
+            (x, f, st) = impl.minimize(init, bounds, obj, fa, **kw) if fa is not None else impl.minimize(init, bounds, obj, **kw)
         except Exception as e:  # noqa
             return {'err': type(e).__name__, 'msg': str(e)[:200]}, obj
-    return {'x': [float(v) for v in x], 'f': float(f), 'flag': int(st['warnflag']), 'niter': int(st['niter']),
-            'step': float(st['last_nr_step']), 'nsteps': int(st.get('p2_n_steps', 0)), 'status': st,
-            'converged': bool(impl.has_converged(st))}, obj
+    res = {'x': [float(v) for v in x], 'f': float(f), 'flag': int(st['warnflag']), 'niter': int(st['niter']),
+           'step': float(st['last_nr_step']), 'nsteps': int(st.get('p2_n_steps', 0)), 'status': st,
+           'converged': bool(impl.has_converged(st))}
+    # glue: the arrays / sequences handed in are unchanged, what is handed out is not a view of them
+    res['mutated'] = [n for n, a, sn in (('initials', init, snap[0]), ('bounds', bounds, snap[1])) if _snapshot(a) != sn]
+    res['aliased'] = [n for n, a in (('initials', init), ('bounds', bounds))
+                      if isinstance(a, np.ndarray) and isinstance(x, np.ndarray) and np.shares_memory(x, a)]
+    res['xtype'] = '%s:%s' % (type(x).__name__, getattr(x, 'dtype', None))
+    return res, obj
 
 
 # --------------------------------------------------------------------------------------------------
@@ -452,6 +520,14 @@ def o_nr_contract(ctx, case):
         return '%s.minimize accepted the initial value %r below ns_min=%r' % (tag, case['ns0'], lo)
     x, f, flag, niter, step = res['x'], res['f'], res['flag'], res['niter'], res['step']
     ns = x[ii]
+    forms = case.get('forms') or {}
+    if res.get('mutated'):
+        return '%s.minimize changed the %s handed in by the caller (argument forms %r): after the call %r' % (
+            tag, ' and '.join(res['mutated']), forms, arg_forms(case, init, bounds)[0 if 'initials' in res['mutated'] else 1].__class__.__name__)
+    if res.get('aliased'):
+        return '%s.minimize returns an xmin that shares memory with the %s handed in (argument forms %r)' % (tag, ' and '.join(res['aliased']), forms)
+    if res.get('xtype') and res['xtype'] != 'ndarray:float64':
+        return '%s.minimize returns xmin as %s for argument forms %r, not a float64 ndarray' % (tag, res['xtype'], forms)
     for k, name in enumerate(order):
         if k != ii and not (k == jj and case['kind'] == 'scan') and not _same(x[k], init[k]):
             return '%s: parameter %d (%s), which this minimiser must not vary, moved from %r to %r (ns = parameter %d stayed at %r)' % (
@@ -1139,7 +1215,7 @@ class _StubNlopt(object):
             return self.nev
 
 
-def run_crs(case):
+def run_crs(case, raw=False):
     """Minimizer(CRSMinimizerImpl) on a 2-parameter quadratic with the stub nlopt reporting case['status']"""
     import contextlib
     import io
@@ -1158,6 +1234,10 @@ def run_crs(case):
         with warnings.catch_warnings(), contextlib.redirect_stdout(out):
             warnings.simplefilter('ignore')
             try:
+                if raw:
+                    (_, _, st) = CRSMinimizerImpl(cfg=cfg()).minimize(np.array(case['init'], dtype=np.float64),
+                                                                     np.array(case['bounds'], dtype=np.float64), lambda x, *a: fg(x))
+                    return st['success']
                 (x, f, st) = Minimizer(CRSMinimizerImpl(cfg=cfg()), max_repetitions=2).minimize(
                     RandomStateService(case.get('rss', 1)), ps, lambda x, *a: fg(x))
                 return {'x': [float(v) for v in x], 'f': float(f), 'status': int(st['status'])}
@@ -1201,39 +1281,6 @@ def gen_crs_case(rng):
     return cs
 
 
-def o_status_tables(ctx, case):
-    """has_converged of every implementation on synthetic status records: converged exactly for the optimiser's
-    own success indication (L-BFGS-B warnflag 0; scipy / iminuit success; nlopt result codes 1..4)."""
-    import sys
-    from skyllh.core.minimizer import LBFGSMinimizerImpl, NR1dNsMinimizerImpl, ScipyMinimizerImpl
-    rows = []
-    lb = LBFGSMinimizerImpl(cfg=cfg())
-    for wf in (0, 1, 2):
-        for task in ('CONVERGENCE: NORM OF PROJECTED GRADIENT <= PGTOL', 'STOP: TOTAL NO. OF ITERATIONS REACHED LIMIT', 'ABNORMAL',
-                     'ABNORMAL_TERMINATION_IN_LNSRCH', b'ABNORMAL_TERMINATION_IN_LNSRCH'):
-            rows.append(('LBFGS', lb, {'warnflag': wf, 'task': task, 'nit': 3}, wf == 0))
-    sc = ScipyMinimizerImpl('SLSQP', cfg=cfg())
-    for ok in (True, False, np.True_, np.False_):
-        rows.append(('Scipy', sc, {'success': ok, 'nit': 1}, bool(ok)))
-    try:
-        from skyllh.core.minimizers.iminuit import IMinuitMinimizerImpl
-        im = IMinuitMinimizerImpl(cfg=cfg())
-        for ok in (True, False):
-            rows.append(('IMinuit', im, {'success': ok, 'nfev': 1}, ok))
-    except Exception:  # noqa
-        pass
-    nr = NR1dNsMinimizerImpl(cfg=cfg())
-    for wf in (-2, -1, 0, 1):
-        rows.append(('NR1d', nr, {'warnflag': wf, 'niter': 1}, wf <= 0))
-    for (name, impl, st, want) in rows:
-        got = bool(impl.has_converged(dict(st)))
-        if got != want:
-            return '%sMinimizerImpl.has_converged(%r) = %s, the optimiser\'s own status says %s' % (name, st, got, want)
-        if want and impl.is_repeatable(dict(st)) and name in ('LBFGS', 'NR1d'):
-            return '%sMinimizerImpl.is_repeatable(%r) is True for a converged status' % (name, st)
-    return None
-
-
 # ---- histories on one object: the same Minimizer / implementation object minimises the *same function object*
 #      several times with different func_args (trial data), initials and bounds; each result must equal the
 #      one of a fresh object.  The objectives are module-level functions on purpose (identical object per call).
@@ -1272,10 +1319,13 @@ def run_history(case, fresh):
         m = _hist_objects(case) if fresh else mini
         ps = ParameterSet([Parameter('p%d' % i, v, b[0], b[1]) for i, (v, b) in enumerate(zip(st['init'], st['bounds']))])
         args = (np.array(st['A'], dtype=np.float64), np.array(st['m'], dtype=np.float64))
+        if case.get('argform') == 'list':
+            args = list(args)
         with warnings.catch_warnings():
             warnings.simplefilter('ignore')
             try:
-                (x, f, _) = m.minimize(RandomStateService(case.get('rss', 1)), ps, func, args=args, kwargs=dict(kw))
+                (x, f, _) = m.minimize(RandomStateService(case.get('rss', 1)), ps, func, args=args,
+                                       kwargs=(dict(kw) if (kw or case.get('kwform') != 'none') else None))
                 out.append({'x': [float(v) for v in x], 'f': float(f)})
             except Exception as e:  # noqa
                 out.append({'err': type(e).__name__, 'msg': str(e)[:160]})
@@ -1325,7 +1375,7 @@ def gen_history_case(rng, impl):
             st = {'bounds': st['bounds'][:1], 'm': st['m'][:1], 'A': [[st['A'][0][0]]], 'init': st['init'][:1]}
         steps.append(st)
     return {'kind': 'history', 'impl': impl, 'grads': rng.random() < 0.75, 'steps': steps, 'rss': rng.randrange(1, 1000),
-            'cls': 'history:%s' % impl}
+            'argform': rng.choice(['tuple', 'list']), 'kwform': rng.choice(['dict', 'none']), 'cls': 'history:%s' % impl}
 
 
 # ---- FuncWithGradsFunctor: random get_f / get_grads sequences on one functor
@@ -1378,18 +1428,400 @@ def o_functor_history(ctx, case, ans=None):
         mo = b2f(mf) if op == 'f' else parse_flist(mg)
         if (o != mo):
             return 'FuncWithGradsFunctor call %d get_%s(%r): implementation %r, model %r' % (k, op, x, o, mo)
+    ctx.count('branch:functorStep:' + ('hit' if ncalls < len(case['ops']) else 'no-hit-in-this-case'))
     if int(mcalls) != ncalls:
         ctx.count('functor:call-count-differs-from-model(diagnostic)')
     return None
 
 
 def gen_functor_case(rng):
-    cs = gen_box_case(rng, 'functor', n=rng.choice([1, 2, 3]) if False else rng.choice([2, 3]))
+    cs = gen_box_case(rng, 'functor', n=rng.choice([2, 3]))
     pool = [[b[0] + (b[1] - b[0]) * rng.random() for b in cs['bounds']] for _ in range(rng.choice([2, 3, 4]))]
     pool.append([0.0] * len(cs['bounds']))
     pool.append([-0.0] + [0.0] * (len(cs['bounds']) - 1))
     ops = [[rng.choice('fg'), list(rng.choice(pool))] for _ in range(rng.choice([3, 6, 12]))]
     return {'kind': 'functor', 'A': cs['A'], 'm': cs['m'], 'ops': ops, 'cls': 'functor-history'}
+
+
+# ---- status -> decision tables, scripted optimiser inside the real LBFGSMinimizerImpl, exceptions, generic objective
+
+def _hex(t):
+    t = t if isinstance(t, str) else str(t)
+    return t.encode('ascii', 'replace').hex() or '-'
+
+
+LBFGS_TASKS = ['CONVERGENCE: NORM OF PROJECTED GRADIENT <= PGTOL', 'CONVERGENCE: RELATIVE REDUCTION OF F <= FACTR*EPSMCH',
+               'STOP: TOTAL NO. OF ITERATIONS REACHED LIMIT', 'STOP: TOTAL NO. OF F,G EVALUATIONS EXCEEDS LIMIT', 'ABNORMAL',
+               'ABNORMAL_TERMINATION_IN_LNSRCH', 'CONVERGENCE: REL_REDUCTION_OF_F_<=_FACTR*EPSMCH', 'ERROR: FACTR < 0', '']
+
+
+def status_rows():
+    """(implementation object, status dict, model request, optimiser's own success indication | None)"""
+    from skyllh.core.minimizer import LBFGSMinimizerImpl, NR1dNsMinimizerImpl, ScipyMinimizerImpl
+    rows = []
+    lb = LBFGSMinimizerImpl(cfg=cfg())
+    for wf in (0, 1, 2):
+        for task in LBFGS_TASKS + [b'ABNORMAL']:
+            rows.append(('LBFGS', lb, {'warnflag': wf, 'task': task, 'nit': 3}, 'status lbfgs %d %s' % (wf, _hex(task)), wf == 0))
+    sc = ScipyMinimizerImpl('SLSQP', cfg=cfg())
+    for ok in (True, False, np.True_, np.False_):
+        rows.append(('Scipy', sc, {'success': ok, 'nit': 1}, 'status scipy %d -' % int(bool(ok)), bool(ok)))
+    try:
+        from skyllh.core.minimizers.iminuit import IMinuitMinimizerImpl
+        im = IMinuitMinimizerImpl(cfg=cfg())
+        for ok in (True, False):
+            rows.append(('IMinuit', im, {'success': ok, 'nfev': 1}, 'status iminuit %d -' % int(ok), ok))
+    except Exception:  # noqa
+        pass
+    nr = NR1dNsMinimizerImpl(cfg=cfg())
+    for wf in (-2, -1, 0, 1):
+        rows.append(('NR1d', nr, {'warnflag': wf, 'niter': 1}, 'status nr %d -' % wf, wf <= 0))
+    return rows
+
+
+def status_reqs(case):
+    return [r[3] for r in status_rows()] + ['status crs %d -' % c for c in range(-5, 7)]
+
+
+def o_status_tables(ctx, case, ans=None):
+    """has_converged / is_repeatable of every implementation on synthetic status records: converged exactly for
+    the optimiser's own success indication (L-BFGS-B warnflag 0; scipy / iminuit success; nlopt result codes 1..4),
+    an abnormal line-search termination of L-BFGS-B is repeatable, and both decisions equal the model's tables."""
+    rows = status_rows()
+    if ans is None:
+        ans = ctx.driver('C11', status_reqs(case))
+    for (name, impl, st, _, want), a in zip(rows, ans):
+        got = bool(impl.has_converged(dict(st)))
+        rep_ = bool(impl.is_repeatable(dict(st)))
+        if got != want:
+            return '%sMinimizerImpl.has_converged(%r) = %s, the optimiser\'s own status says %s' % (name, st, got, want)
+        if want and rep_ and name in ('LBFGS', 'NR1d', 'Scipy'):
+            return '%sMinimizerImpl.is_repeatable(%r) is True for a converged status' % (name, st)
+        if name == 'LBFGS' and st['warnflag'] == 2 and 'ABNORMAL' in str(st['task']) and not rep_:
+            return ('LBFGSMinimizerImpl.is_repeatable(%r) is False: an abnormal termination of the line search (what the code '
+                    'repeats with new initials for) is not recognised from this task message') % (st,)
+        (mc, mr) = a.split(' ')
+        if (mc == '1') != got or (mr == '1') != rep_:
+            return '%sMinimizerImpl on %r: has_converged=%s is_repeatable=%s, model %s %s' % (name, st, got, rep_, mc, mr)
+    # nlopt result codes through CRSMinimizerImpl.minimize (stub nlopt): res['success'] vs the model's crsSuccess
+    for code, a in zip(range(-5, 7), ans[len(rows):]):
+        if code == 0:
+            continue
+        cs = {'status': code, 'budget': 50, 'bounds': [[0.0, 1.0], [0.0, 1.0]], 'm': [0.5, 0.5], 'A': [[1.0, 0.0], [0.0, 1.0]],
+              'init': [0.2, 0.2]}
+        succ = run_crs(cs, raw=True)
+        if succ is not None and bool(succ) != (a.split(' ')[0] == '1'):
+            return 'CRSMinimizerImpl: nlopt result code %d gives success=%s, model %s' % (code, succ, a)
+    return None
+
+
+def run_lbfgs_scripted(case):
+    """real Minimizer(LBFGSMinimizerImpl) whose `_fmin_l_bfgs_b` is a scripted optimiser returning
+    (x, f, scipy-style status dict) per call.  -> (result, state)"""
+    from skyllh.core.minimizer import LBFGSMinimizerImpl, Minimizer
+    from skyllh.core.parameters import Parameter, ParameterSet
+    from skyllh.core.random import RandomStateService
+    state = {'calls': [], 'fcalls': []}
+    script = case['script']
+
+    def fmin(func, x0, **kw):
+        k = len(state['calls'])
+        state['calls'].append({'x0': np.array(x0, dtype=np.float64), 'kw': kw})
+        a = script[min(k, len(script) - 1)]
+        return (np.array(_fl(a['x']), dtype=np.float64), F64(_fl(a['f'])), {'warnflag': a['warnflag'], 'task': a['task'], 'nit': 1,
+                                                                              'funcalls': 1, 'grad': np.zeros(len(a['x']))})
+    impl = LBFGSMinimizerImpl(cfg=cfg())
+    impl._fmin_l_bfgs_b = fmin
+    ps = ParameterSet([Parameter('p%d' % i, v, b[0], b[1]) for i, (v, b) in enumerate(zip(case['init'], case['bounds']))])
+    grads = case.get('grads', True)
+
+    def func(x, *args):
+        v = _func_value(case, x)
+        state['fcalls'].append((np.array(x, dtype=np.float64), float(v)))
+        return (v, np.zeros(len(x))) if grads else v
+    try:
+        (x, f, st) = Minimizer(impl, max_repetitions=int(case['max_reps'])).minimize(
+            RandomStateService(case.get('rss', 1)), ps, func, kwargs=({} if grads else {'func_provides_grads': False}))
+    except Exception as e:  # noqa
+        return {'err': type(e).__name__, 'msg': str(e)[:200]}, state
+    return {'x': [float(v) for v in x], 'f': float(f), 'reps': int(st['skyllh_minimizer_n_reps'])}, state
+
+
+def lbfgs_scripted_reqs(case):
+    (res, state) = run_lbfgs_scripted(case)
+    bs = ';'.join(_rec(f2b(b[0]), f2b(b[1])) for b in case['bounds'])
+    sc = list(case['script']) + [case['script'][-1]] * max(0, int(case['max_reps']) + 1 - len(case['script']))
+    at = ';'.join(_rec('lbfgs', str(int(a['warnflag'])), _hex(a['task']), f2b(_fl(a['f'])), flist(_fl(a['x']))) for a in sc)
+    tab = ';'.join(_rec(f2b(v), flist(x)) for (x, v) in state['fcalls']) or '-'
+    return ['wrapst %d %s %s %s' % (int(case['max_reps']), bs, at, tab)]
+
+
+def o_lbfgs_scripted(ctx, case, ans=None):
+    """the real LBFGSMinimizerImpl + Minimizer around a scripted optimiser (scipy-style status records incl. the
+    restart-provoking ones): result / exception / repetitions as the model's wrapper over the model's status tables;
+    what reaches the optimiser: x0 = initials (then in-bounds random initials), the bounds, approx_grad = not
+    func_provides_grads, factr = ftol / eps, no option the installed scipy does not know."""
+    import inspect
+    import scipy.optimize
+    (res, state) = run_lbfgs_scripted(case)
+    if ans is None:
+        ans = ctx.driver('C11', lbfgs_scripted_reqs(case))
+    d = wrap_compare(case, res, state, ans[0])
+    if d:
+        return 'Minimizer[LBFGS around a scripted optimiser, statuses %r]: %s' % ([(a['warnflag'], a['task']) for a in case['script']][:4], d)
+    known = set(inspect.signature(scipy.optimize.fmin_l_bfgs_b).parameters)
+    for k, c in enumerate(state['calls']):
+        kw = c['kw']
+        unknown = sorted(set(kw) - known)
+        if unknown:
+            return 'LBFGSMinimizerImpl passes the option(s) %r, which scipy.optimize.fmin_l_bfgs_b does not accept' % unknown
+        if bool(kw.get('approx_grad')) != (not case.get('grads', True)):
+            return 'LBFGSMinimizerImpl: approx_grad=%r for func_provides_grads=%r' % (kw.get('approx_grad'), case.get('grads', True))
+        if not np.array_equal(np.asarray(kw.get('bounds'), dtype=np.float64), np.array(case['bounds'], dtype=np.float64)):
+            return 'LBFGSMinimizerImpl hands the bounds %r to the optimiser, the parameter set has %r' % (kw.get('bounds'), case['bounds'])
+        if abs(kw.get('factr', 0) - 1e-6 / np.finfo(float).eps) > 1e-3:
+            return 'LBFGSMinimizerImpl: factr=%r, expected ftol/eps' % kw.get('factr')
+        x0 = c['x0']
+        if k == 0 and not all(_same(float(a), float(b)) for a, b in zip(x0, case['init'])):
+            return 'first L-BFGS-B call starts at %r, not at the initials %r' % (x0.tolist(), case['init'])
+        if any(not (b[0] <= v <= b[1]) for v, b in zip(x0, case['bounds'])):
+            return 'L-BFGS-B call %d starts at %r outside the bounds' % (k, x0.tolist())
+    return None
+
+
+def gen_lbfgs_scripted_case(rng):
+    cs = gen_wrap_case(rng)
+    cs['kind'] = 'lbfgs_scripted'
+    cs['grads'] = rng.random() < 0.7
+    pattern = rng.choice(['converged', 'abnormal-then-ok', 'factr-then-ok', 'abnormal-forever', 'maxiter', 'mixed'])
+    ok_task = LBFGS_TASKS[0]
+    for k, a in enumerate(cs['script']):
+        if pattern == 'converged':
+            wf, task = 0, ok_task
+        elif pattern in ('abnormal-then-ok', 'factr-then-ok'):
+            bad = rng.choice(['ABNORMAL', 'ABNORMAL_TERMINATION_IN_LNSRCH']) if pattern[0] == 'a' else LBFGS_TASKS[6]
+            (wf, task) = (2, bad) if k < min(2, cs['max_reps']) else (0, ok_task)
+        elif pattern == 'abnormal-forever':
+            wf, task = 2, 'ABNORMAL'
+        elif pattern == 'maxiter':
+            wf, task = 1, LBFGS_TASKS[2]
+        else:
+            wf = rng.choice([0, 1, 2])
+            task = rng.choice(LBFGS_TASKS)
+        a['warnflag'], a['task'] = wf, task
+        a['conv'], a['rep'] = (wf == 0), None
+    cs['cls'] = 'lbfgs-scripted:' + pattern
+    return cs
+
+
+# ---- exceptions raised by the implementation / the objective inside Minimizer.minimize
+
+class _Boom(Exception):
+    pass
+
+
+def run_wrapper_exc(case):
+    """like run_wrapper, but script entries with 'raise': True make the implementation raise, and
+    case['func_raises'] makes the objective raise when it is re-evaluated"""
+    from skyllh.core.minimizer import Minimizer, MinimizerImpl
+    from skyllh.core.parameters import Parameter, ParameterSet
+    from skyllh.core.random import RandomStateService
+    script = case['script']
+    state = {'calls': [], 'fcalls': []}
+
+    class ScriptImpl(MinimizerImpl):
+        def minimize(self, initials, bounds, func, func_args=None, **kwargs):
+            k = len(state['calls'])
+            state['calls'].append(np.array(initials, dtype=np.float64))
+            a = script[min(k, len(script) - 1)]
+            if a.get('raise'):
+                raise _Boom('implementation call %d' % k)
+            return (np.array(_fl(a['x']), dtype=np.float64), F64(_fl(a['f'])), {'conv': a['conv'], 'rep': a['rep'], 'k': k})
+
+        def get_niter(self, status):
+            return 0
+
+        def has_converged(self, status):
+            return bool(status['conv'])
+
+        def is_repeatable(self, status):
+            return bool(status['rep'])
+
+    ps = ParameterSet([Parameter('p%d' % i, v, b[0], b[1]) for i, (v, b) in enumerate(zip(case['init'], case['bounds']))])
+
+    def func(x, *args):
+        state['fcalls'].append((np.array(x, dtype=np.float64), None if case.get('func_raises') else float(_func_value(case, x))))
+        if case.get('func_raises'):
+            raise _Boom('objective')
+        return (_func_value(case, x), np.zeros(len(x)))
+    try:
+        (x, f, st) = Minimizer(ScriptImpl(cfg=cfg()), max_repetitions=int(case['max_reps'])).minimize(
+            RandomStateService(case.get('rss', 1)), ps, func)
+    except _Boom as e:
+        return {'err': '_Boom', 'msg': str(e)}, state
+    except Exception as e:  # noqa
+        return {'err': type(e).__name__, 'msg': str(e)[:200]}, state
+    return {'x': [float(v) for v in x], 'f': float(f), 'reps': int(st['skyllh_minimizer_n_reps'])}, state
+
+
+def wrapper_exc_reqs(case):
+    (res, state) = run_wrapper_exc(case)
+    bs = ';'.join(_rec(f2b(b[0]), f2b(b[1])) for b in case['bounds'])
+    at = ';'.join('E' if a.get('raise') else _rec('1' if a['conv'] else '0', '1' if a['rep'] else '0', f2b(_fl(a['f'])), flist(_fl(a['x'])))
+                  for a in case['script'])
+    tab = ';'.join(_rec('E' if v is None else f2b(v), flist(x)) for (x, v) in state['fcalls']) or '-'
+    return ['wrape %d %s %s %s' % (int(case['max_reps']), bs, at, tab)]
+
+
+def o_wrapper_exceptions(ctx, case, ans=None):
+    """an exception raised by the implementation (any call) or by the objective (re-evaluation after clipping)
+    leaves Minimizer.minimize unchanged — never swallowed, never turned into a result — exactly where the model's
+    `wrapperE` raises; otherwise the result is the model's."""
+    (res, state) = run_wrapper_exc(case)
+    if ans is None:
+        ans = ctx.driver('C11', wrapper_exc_reqs(case))
+    tk = ans[0].split(' ')
+    raised_at = [k for k, a in enumerate(case['script']) if a.get('raise')]
+    if res.get('err') == '_Boom':
+        if tk[0] == 'err' and tk[1] == 'raised':
+            return None
+        return 'Minimizer.minimize let the exception "%s" through, the model answers %s' % (res['msg'], ans[0][:80])
+    if tk[0] == 'err' and tk[1] == 'raised':
+        return ('Minimizer.minimize %s although the %s raised (implementation calls made: %d, raising calls in the script: %r): '
+                'the exception was swallowed') % ('returned %r' % res.get('x') if 'err' not in res else 'raised %s' % res['err'],
+                                                 'objective' if case.get('func_raises') else 'implementation', len(state['calls']), raised_at)
+    return wrap_compare(case, res, {'calls': state['calls'], 'fcalls': [c for c in state['fcalls'] if c[1] is not None]}, ans[0])
+
+
+def gen_wrapper_exc_case(rng):
+    cs = gen_wrap_case(rng)
+    cs['kind'] = 'wrap_exc'
+    mode = rng.choice(['impl-first', 'impl-later', 'impl-later', 'objective', 'none'])
+    if mode == 'impl-first':
+        cs['script'][0]['raise'] = True
+    elif mode == 'impl-later':
+        cs['script'][rng.randrange(len(cs['script']))]['raise'] = True
+    elif mode == 'objective':
+        cs['func_raises'] = True
+    cs['ret'] = 2
+    cs['cls'] = 'wrap-exc:' + mode
+    return cs
+
+
+# ---- the generic objective of LLHRatio.maximize (value and gradients negated, calls counted)
+
+def run_generic_objective(case):
+    """real LLHRatio.maximize (generic path) around a stub implementation that evaluates the objective at the
+    scripted points, records what it gets and returns the best of them.  -> records"""
+    from skyllh.core.minimizer import MinimizerImpl
+    from skyllh.core.random import RandomStateService
+    rec = {'got': [], 'kw': None}
+    pts = case['points']
+
+    class Probe(MinimizerImpl):
+        def minimize(self, initials, bounds, func, func_args=None, **kwargs):
+            rec['kw'] = dict(kwargs)
+            rec['init'] = np.array(initials, dtype=np.float64)
+            best = None
+            for p_ in pts:
+                x = np.array(p_, dtype=np.float64)
+                (f, g) = func(x, *(func_args or ()))
+                rec['got'].append((x, float(f), [float(v) for v in np.asarray(g)]))
+                if best is None or f < best[1]:
+                    best = (x, f)
+            return (best[0], best[1], {'success': True})
+
+        def get_niter(self, status):
+            return 0
+
+        def has_converged(self, status):
+            return True
+
+        def is_repeatable(self, status):
+            return False
+    llh = build_llh(case, Probe(cfg=cfg()))
+    (v, x, st) = llh.maximize(RandomStateService(1))
+    rec.update(v=float(v), x=[float(t) for t in x], ncalls=int(st.get('n_llhratio_func_calls', -1)))
+    rec['ev'] = [(float(llh.evaluate(np.array(p_, dtype=np.float64))[0]), [float(t) for t in llh.evaluate(np.array(p_, dtype=np.float64))[1]])
+                 for p_ in pts]
+    return rec
+
+
+def generic_objective_reqs(case):
+    rec = run_generic_objective(case)
+    return ['neg %s %s' % (f2b(f), flist(g)) for (f, g) in rec['ev']]
+
+
+def o_generic_objective(ctx, case, ans=None):
+    """the objective LLHRatio.maximize hands to a generic implementation is (-log_lambda, -grads) of evaluate at
+    the very point asked for (= the model's `negFunc`), func_provides_grads=True is announced, every call is
+    counted in n_llhratio_func_calls, and log_lambda_max is the negated minimum."""
+    rec = run_generic_objective(case)
+    if ans is None:
+        ans = ctx.driver('C11', generic_objective_reqs(case))
+    if rec['kw'].get('func_provides_grads') is not True:
+        return 'LLHRatio.maximize calls the implementation with kwargs %r (func_provides_grads=True expected)' % rec['kw']
+    (init, _) = init_bounds(case)
+    if not all(_same(float(a), float(b)) for a, b in zip(rec['init'], init)):
+        return 'LLHRatio.maximize starts the implementation at %r, the parameter set has the initials %r' % (rec['init'].tolist(), init)
+    for (x, f, g), (ef, eg), a in zip(rec['got'], rec['ev'], ans):
+        (mf, mg) = a.split(' ')
+        if not (_same(f, -ef) and len(g) == len(eg) and all(_same(a_, -b_) for a_, b_ in zip(g, eg))):
+            return ('the objective handed to the implementation returns (%r, %r) at %r, evaluate gives (%r, %r): not the '
+                    'negated value and gradients') % (f, g, x.tolist(), ef, eg)
+        if not (_same(f, b2f(mf)) and all(_same(a_, b_) for a_, b_ in zip(g, parse_flist(mg)))):
+            return 'objective at %r: implementation (%r, %r), model negFunc (%r, %r)' % (x.tolist(), f, g, b2f(mf), parse_flist(mg))
+    if rec['ncalls'] != len(rec['got']):
+        return 'n_llhratio_func_calls=%d after %d calls of the objective' % (rec['ncalls'], len(rec['got']))
+    best = min(range(len(rec['got'])), key=lambda i: rec['got'][i][1])
+    if not _same(rec['v'], rec['ev'][best][0]):
+        return 'log_lambda_max=%r, the llh at the reported point %r is %r' % (rec['v'], rec['x'], rec['ev'][best][0])
+    return None
+
+
+def gen_generic_objective_case(rng):
+    cs = gen_ext_case(rng, 'probe')
+    (init, bounds) = init_bounds(cs)
+    cs['points'] = [list(init)] + [[b[0] + (b[1] - b[0]) * rng.random() for b in bounds] for _ in range(rng.choice([1, 3, 5]))]
+    cs['kind'] = 'ext'
+    cs['cls'] = 'generic-objective:n%d' % len(init)
+    return cs
+
+
+# ---- ScipyMinimizerImpl: what happens to the bounds, per method
+
+SCIPY_METHODS = ['L-BFGS-B', 'TNC', 'SLSQP', 'COBYLA', 'Nelder-Mead', 'BFGS', 'Powell', 'CG', 'trust-constr', 'Newton-CG', 'COBYQA']
+
+
+def bounds_mode_reqs(case):
+    return ['bmode %s' % _hex(case['method'])]
+
+
+def o_bounds_mode(ctx, case, ans=None):
+    """per scipy method: the bounds reach scipy natively, as (COBYLA) inequality constraints, or are dropped —
+    as the model's `scipyBoundsMode` says; when they reach scipy they are the bounds of the parameter set."""
+    from skyllh.core.minimizer import ScipyMinimizerImpl
+    B = np.array(case['bounds'], dtype=np.float64)
+    with _CaptureMinimize() as cap, warnings.catch_warnings():
+        warnings.simplefilter('ignore')
+        try:
+            ScipyMinimizerImpl(case['method'], cfg=cfg()).minimize(np.array([0.5 * (b[0] + b[1]) for b in B]), B,
+                                                                   lambda x: (0.0, np.zeros(len(x))), **({} if case.get('grads', True) else {'func_provides_grads': False}))
+        except AttributeError:
+            pass      # logger.warn may be missing; what was captured before still counts
+    if ans is None:
+        ans = ctx.driver('C11', bounds_mode_reqs(case))
+    b, c = cap.seen.get('bounds'), cap.seen.get('constraints')
+    got = 'native' if b is not None else ('constraints' if c else 'dropped')
+    if not cap.seen:
+        got = 'dropped-before-call'
+    if got != ans[0] and not (got == 'dropped-before-call' and ans[0] == 'dropped'):
+        return 'ScipyMinimizerImpl[%s]: the bounds are %s, the model says %s' % (case['method'], got, ans[0])
+    if b is not None and not np.array_equal(np.asarray(b, dtype=np.float64), B):
+        return 'ScipyMinimizerImpl[%s] hands the bounds %r to scipy, given were %r' % (case['method'], b, case['bounds'])
+    if cap.seen and cap.seen.get('jac') != case.get('grads', True):
+        return 'ScipyMinimizerImpl[%s]: jac=%r for func_provides_grads=%r' % (case['method'], cap.seen.get('jac'), case.get('grads', True))
+    return None
 
 
 def gen_box_case(rng, impl, n=None, active=None):
@@ -1479,6 +1911,8 @@ ORACLES = {
     'scan_ge_initial': o_scan_ge_initial, 'scan_all_converged': o_scan_all_converged, 'crs_contract': o_crs_contract,
     'success_floor': o_success_floor, 'status_tables': o_status_tables,
     'history_contract': o_history_contract, 'functor_history': o_functor_history,
+    'lbfgs_scripted': o_lbfgs_scripted, 'wrapper_exceptions': o_wrapper_exceptions, 'generic_objective': o_generic_objective,
+    'bounds_mode': o_bounds_mode,
 }
 
 
@@ -1580,6 +2014,8 @@ def gen_syn_case(rng):
     cs = {'kind': 'nr', 'obj': obj, 'ns0': ns0, 'lo': lo, 'hi': hi, 'tol': tol, 'max_steps': ms, 'cls': 'syn:' + sh}
     if rng.random() < 0.15:
         cs['order'] = rng.choice([['d', 'ns'], ['ns', 'd'], ['d', 'd', 'ns']][:2])
+    if rng.random() < 0.3 and sh != 'threshold':
+        gen_forms(rng, cs)
     return cs
 
 
@@ -1596,6 +2032,8 @@ def gen_llh_case(rng):
             cs.update(p2lo=1.0, p2hi=4.0, p20=rng.choice([1.0, 4.0, 1.0 + 3 * rng.random()]))
             if rng.random() < 0.7:
                 obj['c'] = [rng.uniform(-1, 1) for _ in obj['R']]
+    if rng.random() < 0.3:
+        gen_forms(rng, cs)
     return cs
 
 
@@ -1627,6 +2065,8 @@ def gen_scan_case(rng):
           'p2lo': p2lo, 'p2hi': p2hi, 'p2step': p2step, 'p20': p20, 'cls': tag}
     if rng.random() < 0.4:
         cs['order'] = rng.choice([['p2', 'ns'], ['p2', 'ns'], ['ns', 'p2', 'd'], ['p2', 'ns', 'd']])
+    if rng.random() < 0.5:
+        gen_forms(rng, cs)
     return cs
 
 
@@ -1698,7 +2138,7 @@ def _classify(res):
     for key, tag in (('outside', 'out-of-bounds'), ('func(xmin', 'fmin-inconsistent'), ('silently', 'silent-nonconverged'),
                      ('warnflag', 'flag'), ('stationary', 'not-stationary'), ('initial point', 'worse-than-initial'),
                      ('containing NaN', 'nan-passed-through'), ('must not vary', 'wrong-parameter-varied'), ('initial value of the second', 'scan-worse-than-initial'), ('dropped silently', 'scan-point-not-converged'), ('log_lambda_max', 'maximize-negation'), ('repetitions', 'repetitions'), ('first best', 'scan-best'),
-                     ('on the same object', 'stale-state-between-minimisations'), ('FuncWithGradsFunctor', 'functor-cache'), ('given the bounds', 'impl-out-of-bounds'), ('constrained optimum', 'not-constrained-optimum'),
+                     ('on the same object', 'stale-state-between-minimisations'), ('FuncWithGradsFunctor', 'functor-cache'), ('swallowed', 'exception-swallowed'), ('scripted optimiser', 'lbfgs-restart-logic'), ('is_repeatable', 'status-table'), ('has_converged', 'status-table'), ('negated value', 'objective-negation'), ('the bounds are', 'bounds-mode'), ('handed in', 'input-mutated-or-aliased'), ('float64 ndarray', 'xmin-type'), ('given the bounds', 'impl-out-of-bounds'), ('constrained optimum', 'not-constrained-optimum'),
                      ('inequality constraints', 'cobyla-constraints'), ('COBYLA constraints', 'cobyla-constraints')):
         if key in res:
             return tag
@@ -1746,6 +2186,8 @@ def run(ctx):
         reqs.append(nr_request(cs, obj))
         ctx.count(cs['cls'])
         ctx.count('layout:%s:%s' % (cs['kind'], ','.join(layout(cs)[0])))
+        for fk, fv in (cs.get('forms') or {'init': 'f64', 'bounds': 'f64', 'args': 'none'}).items():
+            ctx.count('form:%s:%s=%s' % (cs['kind'], fk, fv))
         ctx.count('initial:' + ('on-bound' if cs['ns0'] in (cs['lo'], cs['hi']) else 'outside' if not cs['lo'] <= cs['ns0'] <= cs['hi'] else 'inside'))
         if 'err' not in res:
             ctx.count('nr-flag=%d' % res['flag'])
@@ -1766,8 +2208,16 @@ def run(ctx):
         slices[('maximize_nr', i)] = (len(reqs), len(reqs) + 1)
         reqs.append(max_request(cs, res, obj.llh))
     funs = [gen_functor_case(rng) for _ in range(ctx.n(30, 400))]
+    lbs = [gen_lbfgs_scripted_case(rng) for _ in range(ctx.n(40, 600))]
+    wex = [gen_wrapper_exc_case(rng) for _ in range(ctx.n(40, 600))]
+    gob = [gen_generic_objective_case(rng) for _ in range(ctx.n(12, 200))]
+    bms = [{'kind': 'bmode', 'method': m, 'grads': g, 'bounds': [[0.0, 1.0], [-1.0, 2.0]], 'cls': 'bounds-mode:' + m}
+           for m in SCIPY_METHODS for g in (True, False)]
+    sts = [{'kind': 'status', 'cls': 'status-tables'}]
     for name, lst, fn in (('linspace', lins, linspace_reqs), ('cobyla_constraints', cobs, cobyla_reqs),
-                          ('functor_history', funs, functor_reqs)):
+                          ('functor_history', funs, functor_reqs), ('lbfgs_scripted', lbs, lbfgs_scripted_reqs),
+                          ('wrapper_exceptions', wex, wrapper_exc_reqs), ('generic_objective', gob, generic_objective_reqs),
+                          ('bounds_mode', bms, bounds_mode_reqs), ('status_tables', sts, status_reqs)):
         for i, cs in enumerate(lst):
             r = fn(cs)
             slices[(name, i)] = (len(reqs), len(reqs) + len(r))
@@ -1809,7 +2259,8 @@ def run(ctx):
         check('nr_contract', cs)
     for (cs, res, state) in wruns:
         check('wrapper_contract', cs)
-    for name, lst in (('linspace', lins), ('cobyla_constraints', cobs), ('functor_history', funs)):
+    for name, lst in (('linspace', lins), ('cobyla_constraints', cobs), ('functor_history', funs), ('lbfgs_scripted', lbs),
+                      ('wrapper_exceptions', wex), ('generic_objective', gob), ('bounds_mode', bms), ('status_tables', sts)):
         for i, cs in enumerate(lst):
             (a, b) = slices[(name, i)]
             ctx.count('oracle:' + name)
@@ -1871,7 +2322,6 @@ def run(ctx):
         ctx.case(key={k: v for k, v in cs.items() if k != 'cls'})
         ctx.count(cs['cls'])
         check('history_contract', cs)
-    check('status_tables', {'kind': 'status'})
     # every implementation that is given the bounds must return (not raise) on well-conditioned problems
     for im in BOUNDED:
         if im == 'iminuit' and 'iminuit' not in impls:
